@@ -1324,7 +1324,17 @@ pub fn run(ctx: &mut Ctx) {
     let n = ctx.scale(30_000usize, 400_000usize);
     let n = std::env::var("VERIF_C09_N").ok().and_then(|v| v.parse().ok()).unwrap_or(n);
     let strat = case_strategy();
-    let mut trees = ctx.draw("seq", n, &strat);
+    // Value trees are heavy (hundreds of KiB each): generate, run and judge in chunks so that the
+    // thorough tier's 400 000 programs do not have to be resident at once. Each chunk has its own
+    // seeded stream ("seq#<chunk>").
+    const CHUNK: usize = 5_000;
+    let total = n;
+    let mut reported: Vec<String> = Vec::new();
+    let mut done = 0usize;
+    let mut chunk_no = 0usize;
+    while done < total {
+    let n = CHUNK.min(total - done);
+    let mut trees = ctx.draw(&format!("seq#{chunk_no}"), n, &strat);
     let cases: Vec<Case> = trees.iter().map(|t| t.current()).collect();
     let results: Vec<parking_lot::Mutex<Option<Outcome>>> =
         (0..n).map(|_| parking_lot::Mutex::new(None)).collect();
@@ -1368,7 +1378,6 @@ pub fn run(ctx: &mut Ctx) {
     });
 
     // one replay file per distinct unknown signature (at most 6), each shrunk
-    let mut reported: Vec<String> = Vec::new();
     for k in 0..n {
         let o = results[k].lock().take().expect("case result");
         let v = serde_json::to_value(&cases[k]).unwrap();
@@ -1398,6 +1407,12 @@ pub fn run(ctx: &mut Ctx) {
             };
             ctx.violation("seq", &serde_json::to_value(&min).unwrap(), &fmin);
         }
+    }
+    done += n;
+    chunk_no += 1;
+    if ctx.has_violation() && reported.len() >= 6 {
+        break;
+    }
     }
     ctx.set_exhaustive(false);
     ctx.set_extra("worker_threads", json!(threads));
